@@ -39,6 +39,26 @@ func VerifHostConn(
 	return newProxy(&verifFuncDialer{f: dial}).hostConn(ctx, conn)
 }
 
+type verifInfoDialer struct {
+	f func(hello *TLSHelloInfo, addr string) (net.Conn, error)
+}
+
+func (d *verifInfoDialer) dial(
+	_ context.Context, hello *TLSHelloInfo, asAddr string,
+) (net.Conn, error) {
+	return d.f(hello, asAddr)
+}
+
+// VerifHostConnInfo runs proxy.hostConn on conn with a dialer that is handed
+// the *TLSHelloInfo itself (it may keep it and look at it later, as a dialer
+// that is slow to read the name does).
+func VerifHostConnInfo(
+	ctx context.Context, conn net.Conn,
+	dial func(hello *TLSHelloInfo, addr string) (net.Conn, error),
+) error {
+	return newProxy(&verifInfoDialer{f: dial}).hostConn(ctx, conn)
+}
+
 // VerifIsNameRejected tells if err is errNameRejected.
 func VerifIsNameRejected(err error) bool { return err == errNameRejected }
 
